@@ -65,7 +65,7 @@ def run_case(case):
     out = {"viol": [], "nontrivial": [], "obs": collections.Counter(), "sets": {"step_kinds": set()}}
     rng = core.rng_for(case["seed"], ID, case["idx"])
     tid = "T%d_%d" % (case["seed"], case["idx"])
-    tree = trees.gen_tree(rng, tid)
+    tree = trees.gen_tree(rng, tid, aimed_batch=case["idx"] % 2 == 0)
     tfuncs.TREES[tid] = tree
     for nd in tree["nodes"]:
         for s in nd["steps"]:
